@@ -63,3 +63,24 @@ func clone(b []byte) []byte {
 	copy(c, b)
 	return c
 }
+
+// withSpare returns a copy of b that sits at the start of a larger array:
+// len(copy) == len(b) but cap(copy) > len(b), the spare capacity filled with a
+// canary. A callee that appends to (or writes past) the caller's slice shows
+// up as a damaged canary.
+func withSpare(b []byte) (in []byte, spareIntact func() bool) {
+	const spare = 24
+	buf := make([]byte, len(b)+spare)
+	copy(buf, b)
+	for i := len(b); i < len(buf); i++ {
+		buf[i] = 0xC5
+	}
+	return buf[:len(b)], func() bool {
+		for i := len(b); i < len(buf); i++ {
+			if buf[i] != 0xC5 {
+				return false
+			}
+		}
+		return true
+	}
+}
